@@ -205,31 +205,32 @@ def _r3(chk, repo):
             "current_point = target.sample()", f"Direct.step is {body}", st)
 
 
-def _gamma_update(fn, count_expr: str) -> List[str]:
-    S = {}
-    for s in fn.body:
-        if isinstance(s, ast.Assign) and isinstance(s.targets[0], ast.Name):
-            S[s.targets[0].id] = _norm(s.value)
+def _gamma_update(fn, count_expr) -> List[str]:
+    """Gamma(shape = m/2 + alpha, rate = ||L(Ax - b)||^2/2 + beta), matched modulo renaming of the locals"""
+    from ..pattern import statements, unify
+    S = statements(fn)
     problems = []
-    want = {
-        "b": "self.target.likelihood.data",
-        "Ax": "self.target.likelihood.distribution.mean",
-        "L": "self.target.likelihood.distribution(np.array([1])).sqrtprec",
-        "alpha": "self.target.prior.shape",
-        "beta": "self.target.prior.rate",
-    }
-    for k, v in want.items():
-        if S.get(k) != v:
-            problems.append(f"{k} is `{S.get(k)}`, expected `{v}`")
-    if S.get("m") not in count_expr:
-        problems.append(f"m is `{S.get('m')}`: the Gamma shape must count the data entries ({' or '.join(count_expr)}), "
+    core = ["$b=self.target.likelihood.data", "$Ax=self.target.likelihood.distribution.mean",
+            "$L=self.target.likelihood.distribution(np.array([1])).sqrtprec", "$al=self.target.prior.shape", "$be=self.target.prior.rate"]
+    bnd, fail = unify(core, S)
+    if bnd is None:
+        return [f"`{core[fail]}` not found: data, mean, unit-parameter sqrt-precision and Gamma shape/rate must come from the target's likelihood and prior"]
+    mb = None
+    for ce in count_expr:
+        mb, _ = unify(["$m=" + ce.replace("b)", "$b)")], S, bnd)
+        if mb is not None:
+            break
+    if mb is None:
+        cand, _ = unify(["$m=$rhs"], [(t, a) for t, a in S if t.split("=")[0] not in bnd.values() and ("len(" in t or "count_nonzero" in t)], bnd, distinct=False)
+        shown = [t for t, a in S if "len(" in t or "count_nonzero" in t]
+        problems.append(f"the count entering the Gamma shape is `{shown[0] if shown else '?'}`: it must count the data entries ({' or '.join(count_expr)}), "
                         f"not another vector whose length may differ (a scalar mean is stored with length 1)")
-    d = S.get("dist", "")
-    if d not in ("Gamma(shape=m/2+alpha,rate=0.5*np.linalg.norm(L@(Ax-b))**2+beta)",):
-        problems.append(f"update is `{d}`, not Gamma(shape=m/2+alpha, rate=0.5*||L(Ax-b)||^2+beta)")
-    rets = [n for n in fn.body if isinstance(n, ast.Return)]
-    if len(rets) != 1 or _norm(rets[0].value) != "dist.sample()":
-        problems.append("the draw is not dist.sample()")
+        mb = dict(bnd)
+        mb["m"] = shown[0].split("=")[0] if shown else "m"
+    db, _ = unify(["$dist=Gamma(shape=$m/2+$al,rate=0.5*np.linalg.norm($L@($Ax-$b))**2+$be)", "return $dist.sample()"], S, mb)
+    if db is None:
+        shown = [t for t, a in S if "Gamma(" in t]
+        problems.append(f"update is `{shown[0] if shown else '?'}`, not Gamma(shape=m/2+alpha, rate=0.5*||L(Ax-b)||^2+beta) drawn once")
     return problems
 
 
